@@ -780,6 +780,26 @@ func streamDebsig(g *core.G) {
 				g.Emit("law-debsig", core.Hex(string(good)), core.Hex(q), core.Hex(serializeKeyring(krIn)), "reject", "")
 			}
 		}
+		// members that other ar dialects read as a name table ("//") and references into it
+		// ("/0", "/27"), the table naming control.* / data.* members: for a .deb they are extra
+		// members; the package loads and verifies as if they were not there
+		for rep := g.N(1, 4); rep > 0; rep-- {
+			dm := genDebModel(r)
+			table := r.Pick([]string{"control.rebuilt-2024.tar.gz/\ndata.rebuilt-2024.tar.gz/\n", "control.tar.gz/\n", "data.tar/\ncontrol.tar/\n", "control.tar.gz.orig/"})
+			second := strconv.Itoa(strings.Index(table, "\n") + 1)
+			extra := []arMember{{Name: "/", Slash: true, TS: "0", UID: "0", GID: "0", Mode: "100644", Data: []byte(table)},
+				{Name: "/0", TS: "0", UID: "0", GID: "0", Mode: "100644", Data: compress(".gz", buildTar(dm.CtlFiles))},
+				{Name: "/" + second, TS: "0", UID: "0", GID: "0", Mode: "100644", Data: buildTar(dm.DataFiles)}}
+			if r.Bool() || !strings.Contains(table, "\n") {
+				extra = extra[:2]
+			}
+			pos := r.Pick2(0, 1+r.Intn(len(ms)))
+			with := append(append(append([]arMember{}, ms[:pos]...), extra...), ms[pos:]...)
+			data := buildAr(with)
+			emitDebsig(g, data, role, krIn)
+			emitDeb(g, data)
+			g.Emit("law-debsig-extra", core.Hex(string(data)), core.Hex(string(good)), core.Hex(role), core.Hex(serializeKeyring(krIn)))
+		}
 		// the signed bytes kept under a name that merely resembles control.* / data.*, while the
 		// member the loader reads holds something else: verification must fail
 		for rep := g.N(2, 6); rep > 0; rep-- {
@@ -863,6 +883,43 @@ func init() {
 				}
 			} else if err == nil {
 				return fmt.Sprintf("FAIL accepted on repetition %d although the package was tampered with / the key or role is wrong", i)
+			}
+		}
+		return "ok"
+	}
+	// law (C16): extra members that are neither control.* nor data.* change nothing: the package
+	// loads, shows the same control data and payload as without them, and verifies with the same
+	// signer.  args: bytes with the extra members, bytes without, role, keyring
+	debImpl["law-debsig-extra"] = func(a []string) string {
+		clean, d0 := loadDebDump([]byte(core.MustUnHex(a[1])))
+		if d0 == nil {
+			return "ok"
+		}
+		cleanCtl := dumpGoRecord(reflect.ValueOf(&d0.Control).Elem())
+		cleanData := debDataDigest(d0)
+		e0, err0 := d0.CheckDebsig(readKeyring(a[3]), core.MustUnHex(a[2]))
+		d0.Close()
+		if err0 != nil {
+			return "ok"
+		}
+		_ = clean
+		for i := 0; i < 12; i++ {
+			d, err := deb.Load(bytes.NewReader([]byte(core.MustUnHex(a[0]))), "x.deb")
+			if err != nil {
+				return "FAIL with extra members the package is rejected: " + err.Error()
+			}
+			ctl, data := dumpGoRecord(reflect.ValueOf(&d.Control).Elem()), debDataDigest(d)
+			e, err := d.CheckDebsig(readKeyring(a[3]), core.MustUnHex(a[2]))
+			d.Close()
+			if ctl != cleanCtl || data != cleanData {
+				verdict := "and verification fails"
+				if err == nil {
+					verdict = "while the signature verifies"
+				}
+				return fmt.Sprintf("FAIL load %d: with extra members the package shows other control data or payload (%s): %s", i, verdict, clipStr(ctl, 200))
+			}
+			if err != nil || keyID(e) != keyID(e0) {
+				return fmt.Sprintf("FAIL load %d: with extra members the signature is not accepted: %v", i, err)
 			}
 		}
 		return "ok"
@@ -966,7 +1023,7 @@ func debReadable(op string, a []string) string {
 	switch op {
 	case "deb":
 		return fmt.Sprintf("deb.Load(%d bytes: %q…)", len(debBytes(a)), clipStr(string(debBytes(a)), 120))
-	case "law-deb", "law-debsafe", "debsig", "law-debsig", "law-deblife", "law-debtwo":
+	case "law-deb", "law-debsafe", "debsig", "law-debsig", "law-deblife", "law-debtwo", "law-debsig-extra":
 		s := core.MustUnHex(a[0])
 		return fmt.Sprintf("%s(%d bytes: %q…) %v", op, len(s), clipStr(s, 120), a[1:min(len(a), 2)])
 	}
@@ -1017,7 +1074,7 @@ func init() {
 		ID: "C16", PropsModule: "GoDebian.Props.C16",
 		Facts: append(append([]string{}, debFacts...), "fingerprint:deb.Deb.CheckDebsig"),
 		Streams: []core.Stream{{Name: "debsig", Gen: streamDebsig,
-			Domain: "signed packages (detached signature by one of two RSA keys over debian-binary ++ control member ++ data member) x roles (the usual three and roles of 1-12 bytes, up to a member name that fills the 16-byte column) x keyrings (signer in / not in / empty) x absent roles (another one, and longer / shorter / re-cased / padded spellings of the present one); the signed bytes kept under a look-alike name (data, dataorig, control_, data-tar.gz, ...) while the member the loader reads is replaced; every signed member and the signature with a random single-bit corruption; decoy control.*/data.* members inserted at every position; model (which ranges are verified; the real OpenPGP verdict on exactly those ranges) vs Load + CheckDebsig repeated 6-12 times; law-debsig: valid accepted with the signer's key id, everything else rejected on every repetition"}},
+			Domain: "signed packages (detached signature by one of two RSA keys over debian-binary ++ control member ++ data member) x roles (the usual three and roles of 1-12 bytes, up to a member name that fills the 16-byte column) x keyrings (signer in / not in / empty) x absent roles (another one, and longer / shorter / re-cased / padded spellings of the present one); members named like a GNU name table and references into it (//, /0) whose table names control.* / data.* members; the signed bytes kept under a look-alike name (data, dataorig, control_, data-tar.gz, ...) while the member the loader reads is replaced; every signed member and the signature with a random single-bit corruption; decoy control.*/data.* members inserted at every position; model (which ranges are verified; the real OpenPGP verdict on exactly those ranges) vs Load + CheckDebsig repeated 6-12 times; law-debsig: valid accepted with the signer's key id, everything else rejected on every repetition"}},
 		Impl: debImpl, Readable: debReadable, TrustedBase: append(append([]string{}, tb...), "OpenPGP signature verification (golang.org/x/crypto/openpgp): tamper evidence is its contract, exercised not proved"),
 	})
 }
